@@ -162,6 +162,44 @@ def _convert_func_info(idx: Index):
     return f
 
 
+
+FLOAT_LLVM = {"Float16Type": "HalfType", "Float32Type": "FloatType", "Float64Type": "DoubleType", "BFloat16Type": "BFloatType"}
+
+
+def check_float_types(idx: Index, rep: Report) -> None:
+    """Float types are translated by *kind*, never by bit width: f16 and bf16 are both 16 bits wide and are different LLVM
+    types (half / bfloat)."""
+    r = rep.rule("C23.R8", "xDSL float types are mapped to LLVM float types by their class (f16 -> half, f32 -> float, f64 -> double, bf16 -> bfloat or refused); no LLVM float type is selected by bit width", floor=3)
+    CT = "xdsl/backend/llvm/convert_type.py"
+    mi = idx.module(CT)
+    llvm_float = set(FLOAT_LLVM.values()) | {"X86_FP80Type", "FP128Type"}
+    # (a) every literal table entry keyed by a float type class maps to the LLVM type of that kind
+    n = 0
+    for nm, d in mi.assigns.items():
+        if not isinstance(d, ast.Dict):
+            continue
+        for k, v in zip(d.keys, d.values):
+            kt = unparse(k).split(".")[-1] if k is not None else ""
+            if kt in FLOAT_LLVM:
+                n += 1
+                made = {call_attr(c) for c in ast.walk(v) if isinstance(c, ast.Call)} & llvm_float
+                inst = f"{nm}[{kt}]"
+                if made == {FLOAT_LLVM[kt]}:
+                    r.ok(inst, f"{CT}:{k.lineno} {kt} -> ir.{FLOAT_LLVM[kt]}")
+                else:
+                    r.fail(inst, Finding("C23.R8", f"xdsl.backend.llvm.convert_type.{nm}", f"float-type:{kt}", f"{kt} is translated to {sorted(made) or unparse(v)[:40]}; the LLVM type of that kind is ir.{FLOAT_LLVM[kt]}", f"{CT}:{k.lineno}"))
+    # (b) a table of LLVM float types indexed by a width
+    for f in mi.functions.values():
+        for sub in [x for x in ast.walk(f.raw_node) if isinstance(x, ast.Subscript) and isinstance(x.value, ast.Name) and isinstance(mi.assigns.get(x.value.id), ast.Dict)]:
+            d = mi.assigns[sub.value.id]
+            vals = {unparse(v).split(".")[-1].split("(")[0] for v in d.values}
+            if vals & llvm_float and re.search(r"bitwidth|\.width|size", unparse(sub.slice)):
+                n += 1
+                r.fail(f"{f.fq}:{sub.value.id}", Finding("C23.R8", f.fq, "float-by-width", f"`{unparse(sub)}` selects the LLVM float type by bit width: bf16 is 16 bits wide like f16 and would be translated as `half`, i.e. its bit pattern is reinterpreted in another format", f"{CT}:{sub.lineno}"))
+    if n < 3:
+        raise AnalysisError(f"{CT}: float type entries of the converter table not found ({n})")
+
+
 def check(idx: Index, rep: Report, tier: str) -> str:
     r = rep.rule("C23.R1", "every entry of the translation tables agrees with the mnemonic of the dialect operation it is keyed by", floor=45)
     n = 0
@@ -444,7 +482,11 @@ def check(idx: Index, rep: Report, tier: str) -> str:
             return unparse(v)
 
         vals = {_bdef(v, nid_) for nid_, v in defs}
-        if vals == {f"ir.IRBuilder(block_map[{blk}])"}:
+        # the same builder, temporarily pointed at another block (`with builder.goto_entry_block():` / goto_block / position_*)
+        moved_ = [w_ for w_ in walk_local(drv.node) if isinstance(w_, ast.With) and any(x is c for x in ast.walk(w_)) and any(isinstance(it_.context_expr, ast.Call) and isinstance(it_.context_expr.func, ast.Attribute) and unparse(it_.context_expr.func.value) == b.id and it_.context_expr.func.attr in ("goto_entry_block", "goto_block") for it_ in w_.items)]
+        if moved_:
+            r.fail(inst, Finding("C23.R4", drv.fq, f"moves-insertion-point:{unparse(moved_[0].items[0].context_expr.func.attr if False else moved_[0].items[0].context_expr)[:40]}", f"`{unparse(c)}` runs under `with {unparse(moved_[0].items[0].context_expr)}`: the operation is emitted in another block than the one it is in - an alloca moved to the entry block yields one slot for all loop iterations, and its size operand may not dominate it", f"{CV}:{c.lineno}"))
+        elif vals == {f"ir.IRBuilder(block_map[{blk}])"}:
             r.ok(inst, f"{CV}:{c.lineno} emitted with the builder of its own block")
         elif all(re.fullmatch(r"ir\.IRBuilder\(.*\)", v_) for v_ in vals):
             other = sorted(v_ for v_ in vals if v_ != f"ir.IRBuilder(block_map[{blk}])")
@@ -453,6 +495,7 @@ def check(idx: Index, rep: Report, tier: str) -> str:
             raise AnalysisError(f"{drv.fq}: builder `{b.id}` of `{unparse(c)}` has definitions {sorted(vals)}")
 
     rep.run(check_structure, idx, rep)
+    rep.run(check_float_types, idx, rep)
     return (
         "Table agreement of the LLVM translation tables with the llvm dialect's own operation names (binary ops, casts, "
         "intrinsics, argument attributes), predicate tables against the meaning of the mnemonics, dispatcher coverage and phi "
